@@ -39,14 +39,14 @@ class Names:
         self.fields, self.variants = list(fields), list(variants)
 
 
-def gen_item(rng, names=None, want_enum=None, allow_attrs=True, plain=False):
+def gen_item(rng, names=None, want_enum=None, allow_attrs=True, plain=False, absolute=False, gkinds=None):
     """Returns dict(src=<item with derive_ex attribute>, traits=[...], desc={...}).
     The item is well-typed by construction: every trait list is supertrait-closed, field types support the
     derived traits given the bounds the expander adds, `by`/`key` on generic fields carry an explicit bound."""
     n = names or Names()
     is_enum = rng.random() < 0.45 if want_enum is None else want_enum
     # ---- generics
-    gkind = rng.choice(['none', 'none', 'T', 'T', 'TU', 'ltT', 'TN', 'Tdef', 'Tbound', 'Tself'])
+    gkind = rng.choice(gkinds or ['none', 'none', 'T', 'T', 'TU', 'ltT', 'TN', 'Tdef', 'Tbound', 'Tself'])
     has_T = gkind != 'none'
     has_U = gkind == 'TU'
     has_lt = gkind == 'ltT'
@@ -70,8 +70,10 @@ def gen_item(rng, names=None, want_enum=None, allow_attrs=True, plain=False):
     generics = f"<{', '.join(params)}>" if params else ''
     where = ''
     if has_T and rng.random() < 0.3:
-        where = rng.choice([f' where {n.T}: helpers::Tr', f' where Self: Sized', f' where {n.T}: helpers::Tr<Self>, Self: Sized',
-                            f' where Vec<Self>: Sized'])
+        SZ = '::core::marker::Sized' if absolute else 'Sized'
+        VC = '::std::vec::Vec' if absolute else 'Vec'
+        where = rng.choice([f' where {n.T}: helpers::Tr', f' where Self: {SZ}', f' where {n.T}: helpers::Tr<Self>, Self: {SZ}',
+                            f' where {VC}<Self>: {SZ}'])
     # ---- trait list
     cmp_set = rng.choice(closed_cmp_sets())
     others = []
@@ -105,6 +107,13 @@ def gen_item(rng, names=None, want_enum=None, allow_attrs=True, plain=False):
     has_ops = any(t in traits for t in ops)
     # ---- field types
     T, U, N, LT = n.T, n.U, n.N, n.lt
+    OPT = '::core::option::Option' if absolute else 'Option'
+    VEC = '::std::vec::Vec' if absolute else 'Vec'
+    BOX = '::std::boxed::Box' if absolute else 'Box'
+    STRING = '::std::string::String' if absolute else 'String'
+    SIZED = '::core::marker::Sized' if absolute else 'Sized'
+    ORD = '::core::cmp::Ord' if absolute else 'Ord'
+    used_params = set()
 
     def field_types():
         c = ['i8', 'i8']
@@ -115,13 +124,13 @@ def gen_item(rng, names=None, want_enum=None, allow_attrs=True, plain=False):
             if has_U:
                 c += [U]
             return c
-        c += ['(i8, bool)', 'Option<i8>']
+        c += ['(i8, bool)', f'{OPT}<i8>']
         if not copy:
-            c += ['String', 'Vec<i8>']
+            c += [STRING, f'{VEC}<i8>']
         if has_T:
-            c += [T, T, f'Option<{T}>', f'({T}, i8)', f'::core::marker::PhantomData<{T}>']
+            c += [T, T, f'{OPT}<{T}>', f'({T}, i8)', f'::core::marker::PhantomData<{T}>']
             if not copy:
-                c += [f'Vec<{T}>', f'Box<{T}>']
+                c += [f'{VEC}<{T}>', f'{BOX}<{T}>']
         if has_U:
             c += [U, f'({T}, {U})']
         if has_N and not dflt:
@@ -152,18 +161,21 @@ def gen_item(rng, names=None, want_enum=None, allow_attrs=True, plain=False):
                 b = ', bound(..)' if rng.random() < 0.3 else ''
                 need = []
                 if generic:
-                    need = [f'{ty}: Ord + ::core::hash::Hash']
+                    need = [f'{ty}: {ORD} + ::core::hash::Hash']
                     b = f', bound({need[0]})'
                 rev = 'reverse, ' if ('PartialOrd' in traits and rng.random() < 0.3) else ''
                 out.append(f'#[ord({rev}by = helpers::fo{b})]')
                 if 'Hash' in traits:
-                    out.append('#[hash(by = helpers::fh)]')
+                    # `hash(by)` ends the consultation of lower-priority attributes for Hash, so the bound
+                    # its function needs has to sit on the `hash` attribute itself
+                    hb = f', bound({ty}: ::core::hash::Hash)' if generic else ''
+                    out.append(f'#[hash(by = helpers::fh{hb})]')
                 by_used.append(pos)
         if 'Debug' in traits and rng.random() < 0.15:
             out.append('#[debug(ignore)]')
         if dflt and rng.random() < 0.2 and ty == 'i8':
             out.append(rng.choice(['#[default(3)]', '#[default(helpers::K)]', '#[default(-1)]', '#[default(_)]', '#[default]']))
-        if dflt and rng.random() < 0.2 and ty == 'String':
+        if dflt and rng.random() < 0.2 and ty == STRING:
             out.append('#[default("s")]')
         return ' '.join(out) + (' ' if out else '')
 
@@ -171,6 +183,10 @@ def gen_item(rng, names=None, want_enum=None, allow_attrs=True, plain=False):
         fs = []
         for i in range(nf):
             ty = rng.choice(ftypes)
+            import re as _re
+            for pn in (T, U, N, LT):
+                if _re.search(r"(?<![A-Za-z0-9_#':])" + _re.escape(pn) + r'(?![A-Za-z0-9_])', ty):
+                    used_params.add(pn)
             at = field_attrs(ty, i, nf)
             if kind == 'named':
                 fs.append(f'{at}{n.fields[i]}: {ty}')
@@ -213,8 +229,9 @@ def gen_item(rng, names=None, want_enum=None, allow_attrs=True, plain=False):
             src = f'{head}\npub struct {n.ty}{generics}{where};'
         shape = f'{kind}{nf}'
     # unused parameters are an error (E0392): make every declared parameter used through a marker field
-    return dict(src=src, traits=traits, desc=dict(shape=shape, generics=gkind, entry=entry, by_positions=by_used,
-                                                  where=bool(where)))
+    need = ([T] if has_T else []) + ([U] if has_U else []) + ([N] if has_N else []) + ([LT] if has_lt else [])
+    return dict(src=src, traits=traits, params_all_used=all(p in used_params for p in need),
+                desc=dict(shape=shape, generics=gkind, entry=entry, by_positions=by_used, where=bool(where)))
 
 
 def uses(src, name):
@@ -224,22 +241,74 @@ def uses(src, name):
 
 def gen_c20_case(seed, idx):
     rng = random.Random(seed * 1000003 + idx)
-    for _ in range(50):
+    for _ in range(80):
         it = gen_item(rng)
+        if it['params_all_used']:      # an unused parameter is E0392, not derive_ex's business
+            return dict(it, id=f'c20/{seed}/{idx}', item=it['src'], src=PRELUDE + it['src'] + '\n')
+    return dict(id=f'c20/{seed}/{idx}', item='', src=PRELUDE + '#[derive_ex(Clone)] pub struct X(i8);\n', traits=['Clone'],
+                desc=dict(shape='fallback'))
+
+
+# ---------------------------------------------------------------- C13: hostile names and scopes
+HOSTILE_TYPE_PARAMS = ['H', 'T', 'Eq', 'Fn', 'Self_', 'Rhs', 'Output', 'Target', 'Formatter', 'Hasher', 'Ordering', 'Option', 'r#type']
+HOSTILE_CONST_PARAMS = ['N', 'H', 'T', 'LEN', 'r#N']
+# names the expansion uses for its own locals / parameters / closures
+EXPANSION_LOCALS = ['f', 'state', 'this', 'other', 'rhs', 'source', 'lhs', 'o', 'to_index', 'l_0', 'r_0', '_0', '_self_0',
+                    '_other_0', '_this_0', 'l_a', 'r_a', '_a', '_self_a', '_other_a', '_this_a', 'eq', 'cmp', 'partial_cmp', 'hash',
+                    '_eq', '_f', 'clone', 'fmt', 'default']
+HOSTILE_FIELDS = ['this', 'other', 'state', 'f', 'rhs', 'source', 'lhs', 'o', 'to_index', 'r#type', 'r#fn', 'r#match', 'eq', 'cmp',
+                  'hash', 'clone', 'fmt', 'default', 'deref', 'l_0', '_0', 'self_', 'r#struct', 'r#ref', 'r#mut']
+HOSTILE_VARIANTS = ['None', 'Some', 'Ok', 'Err', 'Option', 'Ordering', 'Equal', 'Less', 'Self_', 'Default', 'Clone', 'Eq', 'Fn',
+                    'Formatter', 'Result', 'r#Box', 'T', 'H']
+HOSTILE_TYPES = ['Option', 'Result', 'Eq', 'Fn', 'Clone', 'Default', 'Ordering', 'Hasher', 'Formatter', 'Debug', 'Hash', 'Ord',
+                 'PartialEq', 'PartialOrd', 'Copy', 'Sized', 'Some', 'None', 'Vec_', 'Box_', 'r#type', 'T', 'H', 'X']
+HOSTILE_LIFETIMES = ["'a", "'b", "'r#type" if False else "'x", "'this", "'state"]
+
+SHADOW = '''
+#[allow(unused_macros)]
+mod shadow {
+    pub struct Some; pub struct None; pub struct Ok; pub struct Err;
+    pub trait Eq {} pub trait Fn {} pub trait Ord {} pub trait PartialEq {} pub trait PartialOrd {} pub trait Hash {}
+    pub trait Clone {} pub trait Copy {} pub trait Default {} pub trait Debug {} pub trait Sized {} pub trait Into {} pub trait Hasher {}
+    pub struct Ordering; pub struct Formatter; pub enum Result { A } pub enum Option_ { A }
+    pub fn drop() {}
+    pub mod core {} pub mod std {}
+}
+'''
+
+
+def gen_c13_case(seed, idx):
+    """a well-typed item (C20 grammar) with user-chosen names drawn from a hostile dictionary, in one of three scopes"""
+    rng = random.Random(seed * 7000003 + idx)
+    scope = ['plain', 'shadow', 'no_std'][idx % 3]
+    for _ in range(60):
+        fields = rng.sample(HOSTILE_FIELDS, 4)
+        variants = rng.sample(HOSTILE_VARIANTS, 4)
+        tp = rng.sample(HOSTILE_TYPE_PARAMS, 2)
+        ty = rng.choice(HOSTILE_TYPES)
+        # a type parameter, the type and its variants live in one namespace: keep them distinct
+        if ty in tp or ty in variants:
+            continue
+        use_local_const = rng.random() < 0.25
+        cn = rng.choice(EXPANSION_LOCALS) if use_local_const else rng.choice(HOSTILE_CONST_PARAMS)
+        if cn in tp or cn == ty:
+            continue
+        names = Names(ty=ty, T=tp[0], U=tp[1], N=cn, lt=rng.choice(HOSTILE_LIFETIMES), fields=fields, variants=variants)
+        it = gen_item(rng, names=names, absolute=True, gkinds=['none', 'T', 'TU', 'ltT', 'ltT', 'TN', 'TN', 'TN', 'Tdef', 'Tbound', 'Tself'])
         src = it['src']
-        # every declared parameter must be used by some field (E0392 otherwise): check textually on the body
-        body = src.split('\n')[-1]
-        body = body[body.index('X') + 1:]
-        after_generics = body.split('>', 1)[1] if body.startswith('<') and '>' in body else body
-        ok = True
-        for p, present in (('T', 'T' in it['desc']['generics']), ('U', it['desc']['generics'] == 'TU'),
-                           ('N', it['desc']['generics'] == 'TN'), ("'a", it['desc']['generics'] == 'ltT')):
-            if present:
-                import re
-                decl_stripped = re.sub(r'where[^{(;]*', '', after_generics)
-                if not re.search(r'(?<![A-Za-z0-9_])' + re.escape(p) + r'(?![A-Za-z0-9_])', decl_stripped):
-                    ok = False
-        if ok:
-            return dict(id=f'c20/{seed}/{idx}', src=PRELUDE + src + '\n', **it)
-    it = gen_item(rng, allow_attrs=False)
-    return dict(id=f'c20/{seed}/{idx}', src=PRELUDE + '#[derive_ex(Clone)] pub struct X(i8);\n', traits=['Clone'], desc=dict(shape='fallback'))
+        if not it['params_all_used']:
+            continue
+        pre = PRELUDE
+        if scope == 'no_std':
+            if '::std::' in src:
+                continue
+            pre = '#![no_std]\n' + PRELUDE
+        if scope == 'shadow':
+            body = f'mod case {{\n#[allow(unused_imports)] use super::shadow::*;\nuse super::helpers;\nuse derive_ex::{{derive_ex, Ex}};\n{src}\n}}\n'
+            full = pre + SHADOW + body
+        else:
+            full = pre + src + '\n'
+        return dict(it, id=f'c13/{seed}/{idx}', item=src, src=full, scope=scope,
+                    names=dict(ty=ty, T=names.T, U=names.U, N=names.N, lt=names.lt, fields=fields, variants=variants))
+    return dict(id=f'c13/{seed}/{idx}', item='', src=PRELUDE + '#[derive_ex(Clone)] pub struct X(i8);\n', traits=['Clone'],
+                desc=dict(shape='fallback'), scope=scope, names={})
